@@ -19,7 +19,8 @@ EXPLANATION = (
     'returned level does not satisfy P = max(0, mu - N/(Es g)) for Es != 1. C12.b: the allocation is scattered '
     'back with the very index vector produced by the argsort that sorted the gains (restricted to the kept '
     'prefix), so permuting the channels permutes the allocation. Not decided: optimality, sum == total power, '
-    'non-negativity (numeric).')
+    'non-negativity (numeric).'
+    ' General rules also applied here (see DESIGN 10.5): input immutability (no in-place modification of an array argument, alias- and view-aware).')
 
 
 def _derived(fn: FuncInfo, seeds: Set[str]) -> Set[str]:
